@@ -18,7 +18,7 @@ pub fn def() -> PropDef {
         streams,
         run,
         floors,
-        rule: "(a) suffix independence: for inputs with a declared length (control, data with L) decode(b) vs decode(b ++ s) for random suffixes of 1..64 octets: same value, reader left with exactly |s| octets; rejected b stays rejected; (b) k <= 6 mixed control / data-with-length messages packed back to back are decoded one after another from one reader and must give the k values; (c) AVP compositionality: try_read_greedy(r1++..++rk) = concatenation of try_read_greedy(ri) for well-delimited records (good and individually undecodable), through SliceReader and contract readers (whose sub-reader windows confine each payload decoder). Distinct = distinct inputs; non-trivial = accepted base message or list of >= 2 records.",
+        rule: "(a) suffix independence: for inputs with a declared length (control, data with L) decode(b) vs decode(b ++ s) for random suffixes of 1..64 octets: same value, reader left with exactly |s| octets; rejected b stays rejected; (b) k <= 6 mixed control / data-with-length messages packed back to back are decoded one after another from one reader and must give the k values; (c) AVP compositionality: try_read_greedy(r1++..++rk) = concatenation of try_read_greedy(ri) for well-delimited records (good and individually undecodable), through SliceReader and contract readers (whose sub-reader windows confine each payload decoder). Distinct = distinct inputs; non-trivial = accepted base message or list of >= 2 records. Also: records with surplus payload shaped like AVP records; lists and messages beyond 64 KiB.",
     }
 }
 
